@@ -212,21 +212,25 @@ def evalGoal (P : Prog) (sched : Sched) : Nat → Eval
   | fuel + 1 => evalGoalWith P sched (evalGoal P sched fuel)
 
 /-- One `engine.ground(db, term, target, label)` call (for `evidence(\+a)` the engine passes `a` with the label
-    `evidence-`). -/
+    `evidence-`).  The name under which the result is stored is the atom itself (Python: the query term). -/
 structure Call where
   atom : Atom
   label : Label
-  name : Nat
   deriving Repr, Inhabited
 
-def groundOne (P : Prog) (sched : Sched) (fuel : Nat) (st : St) (c : Call) : Except Err St := do
+/-- Returns the key under which the atom is stored, and the new state. -/
+def groundOne (P : Prog) (sched : Sched) (fuel : Nat) (st : St) (c : Call) : Except Err (Key × St) := do
   let (k, st1) ← evalGoal P sched fuel c.atom st
   -- engine.py:338-358: add_name(term, node, label) / add_name(term, FALSE, label)
-  pure { st1 with store := st1.store.addName (.pos c.name) k c.label }
+  pure (k, { st1 with store := st1.store.addName (.pos c.atom) k c.label })
 
-/-- Successive `ground` calls on one target (`ground_all`: the queries, then the evidence). -/
-def groundAll (P : Prog) (sched : Sched) (fuel : Nat) (calls : List Call) (st : St := {}) : Except Err St :=
-  calls.foldlM (groundOne P sched fuel) st
+/-- Successive `ground` calls on one target (`ground_all`: the queries, then the evidence); the keys in call order. -/
+def groundAll (P : Prog) (sched : Sched) (fuel : Nat) : List Call → St → Except Err (List Key × St)
+  | [], st => pure ([], st)
+  | c :: cs, st => do
+    let (k, st1) ← groundOne P sched fuel st c
+    let (ks, st2) ← groundAll P sched fuel cs st1
+    pure (k :: ks, st2)
 
 /-! ### rank check used by the driver (hypothesis of the theorems, decided per input) -/
 
